@@ -17,7 +17,7 @@ use std::collections::BTreeMap;
 pub fn meta() -> Meta {
     Meta {
         level: "model_checking",
-        rule: "every well-formed history of at most L operations over {declare int x, declare const x, declare qubit x, declare int x = y, use x, assign x, gate-call x, open if / else / while / for x / case / default / gate(x) / def(x), close} for x in a two-name pool (four pools: user names; pi and the library gate h; the built-in gate U; non-ASCII names), rendered as a program and analysed by the real front end; every symbol reference of the graph is compared with the reference scope stack; states = distinct reference scope stacks reached, transitions = distinct (state, operation) pairs, traces = histories executed; a history is non-trivial when some use resolves through at least two open scopes or to a shadowing declaration, or is a duplicate declaration",
+        rule: "every well-formed history of at most L operations over {declare int x, declare const x, declare qubit x, declare int x = y, use x, for x in [0:y], assign x, gate-call x, open if / else / while / for x / case / default / gate(x) / def(x), close} for x in a two-name pool (four pools: user names; pi and the library gate h; the built-in gate U; non-ASCII names), rendered as a program and analysed by the real front end; every symbol reference of the graph is compared with the reference scope stack; states = distinct reference scope stacks reached, transitions = distinct (state, operation) pairs, traces = histories executed; a history is non-trivial when some use resolves through at least two open scopes or to a shadowing declaration, or is a duplicate declaration",
         assumptions: vec![
             "the generator never redeclares a for-loop variable directly in its own loop body and never uses a gate/subroutine name inside its own body (the statement does not fix these cases); gate/def parameters and body are one scope",
             "hook oq3_verif: scope depth accessor",
@@ -39,6 +39,8 @@ pub enum Op {
     Else,
     While,
     For(u8),
+    /// `for int x in [0:y] {` — the iterable is a use that is resolved outside the loop scope
+    ForIn(u8, u8),
     Case,
     Default,
     Gate(u8),
@@ -46,7 +48,7 @@ pub enum Op {
     Close,
 }
 
-pub const OPS: [Op; 24] = [
+pub const OPS: [Op; 27] = [
     Op::DeclInt(0),
     Op::DeclInt(1),
     Op::DeclConst(0),
@@ -68,12 +70,15 @@ pub const OPS: [Op; 24] = [
     Op::DeclInit(0, 0),
     Op::DeclInit(0, 1),
     Op::DeclInit(1, 0),
+    Op::ForIn(0, 0),
+    Op::ForIn(0, 1),
+    Op::ForIn(1, 0),
     Op::DeclConst(1),
     Op::CallGate(0),
     Op::Assign(1),
 ];
-/// the first 21 operations are the quick alphabet; the thorough tier uses all 24
-pub const N_QUICK_OPS: usize = 21;
+/// the first 24 operations are the quick alphabet; the thorough tier uses all 27
+pub const N_QUICK_OPS: usize = 24;
 
 fn op_name(op: Op, names: &[&str; 2]) -> String {
     match op {
@@ -88,6 +93,7 @@ fn op_name(op: Op, names: &[&str; 2]) -> String {
         Op::Else => "else".into(),
         Op::While => "while".into(),
         Op::For(n) => format!("for:{}", names[n as usize]),
+        Op::ForIn(n, m) => format!("for:{}<-{}", names[n as usize], names[m as usize]),
         Op::Case => "case".into(),
         Op::Default => "default".into(),
         Op::Gate(n) => format!("gate:{}", names[n as usize]),
@@ -292,6 +298,23 @@ pub fn render(hist: &[Op], family: usize) -> Option<Rendered> {
                 decl(&mut text, &mut events, &mut scopes, names[n as usize], "for int ", " in [0:1] {\n", &mut nontrivial);
                 just_opened_for = Some(n);
             }
+            Op::ForIn(n, m) => {
+                // the iterable is resolved before the loop scope (with the loop variable) exists
+                let it = names[m as usize];
+                let (target, dist) = lookup(&scopes, it);
+                scopes.push(BTreeMap::new());
+                frames.push((Frame::For(n), vec![]));
+                decl(&mut text, &mut events, &mut scopes, names[n as usize], "for int ", " in [0:", &mut nontrivial);
+                let start = text.len();
+                text.push_str(it);
+                let end = text.len();
+                text.push_str("] {\n");
+                if n == m || target.is_some() && dist >= 1 {
+                    nontrivial = true;
+                }
+                events.push(Expect { name: it.to_string(), range: (start, end), is_decl: false, target, gate_use: false, typed: false, deep: dist >= 1 });
+                just_opened_for = Some(n);
+            }
             Op::Case => {
                 text.push_str("switch (1) { case 1 {\n");
                 frames.push((Frame::Switch, vec![]));
@@ -421,6 +444,16 @@ fn walk_stmt(s: &asg::Stmt, out: &mut Vec<Found>) {
         asg::Stmt::While(w) => walk_block(w.loop_body().statements(), out),
         asg::Stmt::ForStmt(f) => {
             out.push(Found { res: f.loop_var().clone(), ty: None });
+            // an identifier as the stop of a range iterable (possibly behind casts) is a use
+            if let asg::ForIterable::RangeExpression(r) = f.iterable() {
+                let mut e = r.stop().expression();
+                while let asg::Expr::Cast(c) = e {
+                    e = c.operand().expression();
+                }
+                if let asg::Expr::Identifier(id) = e {
+                    out.push(Found { res: id.clone(), ty: None });
+                }
+            }
             walk_block(f.loop_body().statements(), out);
         }
         asg::Stmt::SwitchCaseStmt(sw) => {
